@@ -13,7 +13,7 @@ LEVEL = "exploration"
 SHARDS = {"quick": 16, "thorough": 16}
 RULE = ("typed Sids of every configured type (concrete and with '*' / '>' values, natural and uri-forced to a type sharing the "
         "key set) and untyped junk strings; for every key k: get_as(k) fields/string prefix, parent, parent chain length, "
-        "parent / last value, keytype, basetype, len; untyped: navigations return the empty Sid. "
+        "parent / last value (at every level of the parent walk, value as string and as Sid object), keytype, basetype, len; untyped: navigations return the empty Sid. "
         "non-trivial = search Sid, or a type on a side branch (key set not a prefix of its basetype's deepest type), or >= 5 fields, or untyped; "
         "distinct = distinct uri")
 ASSUMPTIONS = [
@@ -228,6 +228,16 @@ def evaluate(case) -> Outcome:
         if not ok:
             out.add(f"C03/parent-walk/raises/{exc_sig(nxt)}", f"walking parents of {sid!r} raised {nxt!r}")
             return out
+        # ... and at every level of the walk, parent / last value leads back (value given as a string and as a Sid object)
+        cs, cf, ct = str(cur), cur.fields, cur.type
+        if nxt and cf and m.type_first(cs)[0] == ct and "?" not in cs:
+            last = list(cf.values())[-1]
+            for form, operand in (("str", last), ("sid-object", Sid(last))):
+                okb, back = call(lambda: nxt / operand)
+                if not okb:
+                    out.add(f"C03/div/raises/{exc_sig(back)}", f"{nxt!r} / {operand!r} raised {back!r}")
+                elif back != cur or back.type != ct or back.fields != cf:
+                    out.add(f"C03/div/walk/{form}/parent-div-last-not-sid", f"{nxt!r} / {operand!r} gave {back!r}, expected {cur!r}")
         cur = nxt
         steps += 1
     ok, n = call(len, cur)
